@@ -6,6 +6,7 @@ mod body;
 mod codegen;
 mod dynval;
 mod errors;
+mod gentree;
 mod negotiate;
 mod orders;
 mod plain;
@@ -32,6 +33,7 @@ fn main() {
         "tokens" => tokens::tokens(rest),
         "safelong" => safelong::safelong(rest),
         "body" => body::body(rest),
+        "gen-tree" => gentree::gen_tree(rest),
         _ => {
             eprintln!("unknown subcommand {cmd:?}");
             2
